@@ -156,7 +156,7 @@ def run(ctx):
         if isinstance(n.targets[0], ast.Tuple) and len(n.targets[0].elts) == 2 and norm(n.targets[0].elts[0]) == "label" and isinstance(n.value, ast.Call) and isinstance(n.value.func, ast.Attribute) and n.value.func.attr == "popitem" and not n.value.args:
             return any(re.fullmatch(r".+ is not None", x) for x in facts)
         return False
-    ok = len(lab_defs) >= 2 and all(_lab_ok(n) for n in lab_defs) and any(norm(n) == "label = 'null'" for n in lab_defs) and any(isinstance(n.targets[0], ast.Tuple) for n in lab_defs) and any(norm(n) == "index = alternative_symbol.labels.index(label)" for n in walk_local(ri.node) if isinstance(n, ast.Assign))
+    ok = len(lab_defs) >= 2 and all(_lab_ok(n) for n in lab_defs) and any(norm(n) == "label = 'null'" for n in lab_defs) and any(isinstance(n.targets[0], ast.Tuple) for n in lab_defs) and any(re.fullmatch(r"\w+ = \w+\.labels\.index\(label\)", norm(n)) for n in walk_local(ri.node) if isinstance(n, ast.Assign))
     ritext = ast.unparse(ri.node)
     if not ok and "popitem" not in ritext and "'null'" not in ritext:
         ctx.unrecognised("C15.R6", "decoder: None -> 'null', otherwise the single key is the branch label", ri.where(), "read_index neither maps None to 'null' nor unwraps an object itself (delegated to code this rule does not follow)")
